@@ -11,6 +11,7 @@
 
 #include "density_legalizer.hpp"
 #include "net_model.hpp"
+#include "utils/verif_hooks.hpp"
 
 namespace coloquinte {
 
@@ -244,6 +245,8 @@ void GlobalPlacer::runLB() {
   std::vector<float> xTarget = blendPlacement(xPlacementLB_, xPlacementUB_, w);
   std::vector<float> yTarget = blendPlacement(yPlacementLB_, yPlacementUB_, w);
 
+  COLOQUINTE_VERIF_POINT("runLB:x", &xtopo_);
+  COLOQUINTE_VERIF_POINT("runLB:y", &ytopo_);
   // Solve the continuous model (x and y independently)
   std::future<std::vector<float> > x =
       std::async(std::launch::async, &NetModel::solveWithPenalty, &xtopo_,
@@ -253,6 +256,7 @@ void GlobalPlacer::runLB() {
                  yPlacementLB_, yTarget, penalty, params);
   xPlacementLB_ = x.get();
   yPlacementLB_ = y.get();
+  COLOQUINTE_VERIF_POINT("runLB:joined", this);
   callback(PlacementStep::LowerBound, xPlacementLB_, yPlacementLB_);
 }
 
